@@ -29,12 +29,20 @@ theorem exit_return_is_not_reraise : ∀ r : Bool, Gen.exitReturn r = !r := by d
 
 theorem depth_incr_is_one : Gen.depthIncr = 1 := by decide
 
+/-- the depth `__exit__` adds to the logger's depth option (`if from_decorator: depth += 1`, then
+    `depth += _frames`): 1 for the decorator wrappers (the frame that called / resumed the wrapper),
+    0 for `with logger.catch()` (the frame containing the block), and 1 for `async with` where
+    `__aexit__`'s own frame sits between `__exit__` and the block (`_frames=1`) – again the block's frame -/
+theorem exit_depths :
+    decoratorDepth = 1 ∧ withDepth = 0 ∧ asyncWithDepth = 1 ∧ Gen.syncExitFrames = 0 ∧ Gen.asyncExitFrames = 1 := by
+  decide
+
 theorem from_decorator_constants : Gen.decoratorFromDecorator = true ∧ Gen.contextFromDecorator = false := by
   decide
 
 /-- the four branches of `Catcher.__call__`: each is `with catcher:` around a single
     `return await f(…)` / `return (yield from f(…))` / asend-try / `return f(…)`, followed by
-    `return default` (resp. `raise StopAsyncIteration`); `athrow` and `aclose` are pass-throughs;
+    `return default` (resp. `raise StopAsyncIteration`); `athrow` and `aclose` are pass-throughs, `__anext__` is `return self.asend(None)`;
     `__aenter__/__aexit__` delegate -/
 theorem wrapper_shapes :
     Gen.shapes = [
@@ -42,17 +50,18 @@ theorem wrapper_shapes :
       { test := "isgeneratorfunction".toList, isAsync := false, inner := .yieldFromCall, after := .returnDefault },
       { test := "isasyncgenfunction".toList, isAsync := true, inner := .asendTry, after := .raiseStopAsyncIteration },
       { test := [], isAsync := false, inner := .plainCall, after := .returnDefault }] ∧
-    Gen.athrowPassThrough = true ∧ Gen.aclosePassThrough = true ∧ Gen.asyncContextDelegates = true := by
+    Gen.athrowPassThrough = true ∧ Gen.aclosePassThrough = true ∧ Gen.anextIsAsendNone = true ∧
+    Gen.asyncContextDelegates = true := by
   decide
 
 /-! ## `Catcher.__exit__` -/
 
 /-- no exception: `__exit__` does nothing -/
-theorem exit_without_exception (env : Env) (cfg : Cfg) (d : Bool) (g : G) :
+theorem exit_without_exception (env : Env) (cfg : Cfg) (d : Nat) (g : G) :
     exit env cfg d none g = (.propagate, g) := exit_none env cfg d g
 
 /-- other types, excluded types, or guard flag set: propagate, world untouched (no record, no onerror) -/
-theorem exit_non_matching_propagates_unlogged (env : Env) (cfg : Cfg) (d : Bool) (e : Exc) (g : G)
+theorem exit_non_matching_propagates_unlogged (env : Env) (cfg : Cfg) (d : Nat) (e : Exc) (g : G)
     (h : g.flag = true ∨ cfg.isMatch e = false ∨ cfg.excluded e = true) :
     exit env cfg d (some e) g = (.propagate, g) := exit_uncaught env cfg d e g h
 
@@ -60,11 +69,11 @@ theorem exit_non_matching_propagates_unlogged (env : Env) (cfg : Cfg) (d : Bool)
     decorators), every callable invoked meanwhile sees its own outcome, flag reset; if `_log` raised
     that error replaces `e` (no onerror); otherwise exactly one `onerror e` (whose error, if any,
     replaces `e`); then suppressed iff `not reraise` -/
-theorem exit_matching_logged_once (env : Env) (cfg : Cfg) (d : Bool) (e : Exc) (g : G)
+theorem exit_matching_logged_once (env : Env) (cfg : Cfg) (d : Nat) (e : Exc) (g : G)
     (hf : g.flag = false) (hm : cfg.isMatch e = true) (hx : cfg.excluded e = false) :
     exit env cfg d (some e) g =
       let g2 : G := { flag := false,
-                      trace := g.trace ++ [.log cfg.level e (if d then 1 else 0)]
+                      trace := g.trace ++ [.log cfg.level e d]
                                  ++ env.probes.map (fun p => .probe p.out) }
       match env.logRaises e with
       | some x => (.raise x, g2)
@@ -81,7 +90,7 @@ theorem exit_matching_logged_once (env : Env) (cfg : Cfg) (d : Bool) (e : Exc) (
 /-- while the flag is set every nested `__exit__` propagates and touches nothing; consequently the
     budget for nested catching is irrelevant: the real (recursive) `__exit__` equals the one in which
     callables invoked during `_log` are never caught -/
-theorem no_recursive_catch (env : Env) (n : Nat) (cfg : Cfg) (d : Bool) (e : Option Exc) (g : G) :
+theorem no_recursive_catch (env : Env) (n : Nat) (cfg : Cfg) (d : Nat) (e : Option Exc) (g : G) :
     (g.flag = true → exitN n env cfg d e g = (.propagate, g)) ∧
     exitN n env cfg d e g = exitN 0 env cfg d e g := by
   constructor
@@ -98,7 +107,7 @@ theorem no_recursive_catch (env : Env) (n : Nat) (cfg : Cfg) (d : Bool) (e : Opt
 
 /-- the guard flag is reset on every path (no exception, not handled, handled, `_log` raising,
     onerror raising): `__exit__` leaves it as it found it -/
-theorem guard_flag_reset_on_every_path (env : Env) (cfg : Cfg) (d : Bool) (e : Option Exc) (g : G) :
+theorem guard_flag_reset_on_every_path (env : Env) (cfg : Cfg) (d : Nat) (e : Option Exc) (g : G) :
     (exit env cfg d e g).2.flag = g.flag := by
   cases e with
   | none => rw [exit_none]
@@ -113,14 +122,14 @@ theorem guard_flag_reset_on_every_path (env : Env) (cfg : Cfg) (d : Bool) (e : O
         · split <;> rfl
     · rw [exit_uncaught env cfg d x g h]
 
-/-! ## plain functions and `with` / `async with` blocks (`runWith`; `callWrapped` and `withBlock` are instances) -/
+/-! ## plain functions and `with` / `async with` blocks (`runWith`; `callWrapped`, `withBlock` and `asyncWithBlock` are instances) -/
 
-theorem fn_transparent (env : Env) (cfg : Cfg) (d : Bool) (dflt : Val) (body : G → CallRes × G) (g : G)
+theorem fn_transparent (env : Env) (cfg : Cfg) (d : Nat) (dflt : Val) (body : G → CallRes × G) (g : G)
     (v : Val) (g1 : G) (h : body g = (.ret v, g1)) :
     runWith (exit env) cfg d dflt body g = (.ret v, g1) := by
   simp [runWith, h, exit_none]
 
-theorem fn_non_matching_propagates_unlogged (env : Env) (cfg : Cfg) (d : Bool) (dflt : Val)
+theorem fn_non_matching_propagates_unlogged (env : Env) (cfg : Cfg) (d : Nat) (dflt : Val)
     (body : G → CallRes × G) (g : G) (e : Exc) (g1 : G) (h : body g = (.raise e, g1))
     (hu : g1.flag = true ∨ cfg.isMatch e = false ∨ cfg.excluded e = true) :
     runWith (exit env) cfg d dflt body g = (.raise e, g1) := by
@@ -128,7 +137,7 @@ theorem fn_non_matching_propagates_unlogged (env : Env) (cfg : Cfg) (d : Bool) (
 
 /-- decorated function / block whose body raises a handled `e`: the records and calls of
     `exit_matching_logged_once`, then `return default` (block: fall through), or `e` re-raised -/
-theorem fn_matching_escape_logged_once (env : Env) (cfg : Cfg) (d : Bool) (dflt : Val)
+theorem fn_matching_escape_logged_once (env : Env) (cfg : Cfg) (d : Nat) (dflt : Val)
     (body : G → CallRes × G) (g : G) (e : Exc) (g1 : G) (h : body g = (.raise e, g1))
     (hf : g1.flag = false) (hm : cfg.isMatch e = true) (hx : cfg.excluded e = false) :
     runWith (exit env) cfg d dflt body g =
@@ -162,12 +171,11 @@ theorem fn_matching_escape_default (env : Env) (cfg : Cfg) (body : G → CallRes
 /-- an inner catcher that suppresses hides the exception from the outer one: the outer adds nothing -/
 theorem nested_inner_suppresses (env : Env) (c1 c2 : Cfg) (body : G → CallRes × G) (g : G) (e : Exc) (g1 g2 : G)
     (h : body g = (.raise e, g1)) (hc : Caught c1 g1 e)
-    (hs : caughtResult env c1 true e g1 = (.suppress, g2)) :
+    (hs : caughtResult env c1 decoratorDepth e g1 = (.suppress, g2)) :
     callWrapped (exit env) c2 (callWrapped (exit env) c1 body) g = (.ret c1.default, g2) := by
   have hinner : callWrapped (exit env) c1 body g = (.ret c1.default, g2) := by
     unfold callWrapped
-    have hd : Gen.decoratorFromDecorator = true := rfl
-    rw [hd, fn_matching_escape_logged_once env c1 true _ body g e g1 h hc.1 hc.2.1 hc.2.2, hs]
+    rw [fn_matching_escape_logged_once env c1 decoratorDepth _ body g e g1 h hc.1 hc.2.1 hc.2.2, hs]
   unfold callWrapped at hinner ⊢
   exact fn_transparent env c2 _ _ _ g _ g2 hinner
 
@@ -184,16 +192,15 @@ theorem nested_reraise_each_logs_once (env : Env) (c1 c2 : Cfg) (body : G → Ca
                     ++ [.log c2.level e 1] ++ env.probes.map (fun p => .probe p.out) }) := by
   obtain ⟨m1, x1, r1, o1⟩ := h1
   obtain ⟨m2, x2, o2⟩ := h2
-  have hd : Gen.decoratorFromDecorator = true := rfl
-  have hinner : callWrapped (exit env) c1 body g = (.raise e, afterLog env c1 true e g1) := by
+  have hinner : callWrapped (exit env) c1 body g = (.raise e, afterLog env c1 decoratorDepth e g1) := by
     unfold callWrapped
-    rw [hd, fn_matching_escape_logged_once env c1 true _ body g e g1 h hf m1 x1]
+    rw [fn_matching_escape_logged_once env c1 decoratorDepth _ body g e g1 h hf m1 x1]
     simp [caughtResult, hl, o1, r1]
   unfold callWrapped at hinner ⊢
-  rw [hd] at hinner ⊢
-  rw [fn_matching_escape_logged_once env c2 true _ _ g e _ hinner rfl m2 x2]
+  rw [fn_matching_escape_logged_once env c2 decoratorDepth _ _ g e _ hinner rfl m2 x2]
   simp only [caughtResult, hl, o2, afterLog]
-  cases c2.reraise <;> simp [Gen.depthIncr]
+  have hdd : decoratorDepth = 1 := by decide
+  cases c2.reraise <;> simp [hdd]
 
 /-! ## generators and coroutines: `with catcher: return (yield from f(…))` / `return await f(…)` -/
 
@@ -272,20 +279,19 @@ theorem matching_escape_logged_once {σ : Type} (k : Kind) (env : Env) (cfg : Cf
     (hc : Caught cfg g' (pep479 k e)) :
     (wrappedGen k (exit env) cfg a).step (emb (.suspended s))
         (match i with | .send v => .send v | .throw x => .throw x) g
-      = escapeRes k cfg (pep479 k e) (caughtResult env cfg true (pep479 k e) g') := by
-  have hd : Gen.decoratorFromDecorator = true := rfl
+      = escapeRes k cfg (pep479 k e) (caughtResult env cfg decoratorDepth (pep479 k e) g') := by
   cases i with
   | send v =>
-    simp only [wrappedGen, genObj, emb, genStep, wrapAuto, delegate, hstep, settle, dconv, finishWith, hd,
-      exit_caught env cfg true _ g' hc]
-    generalize caughtResult env cfg true (pep479 k e) g' = r
+    simp only [wrappedGen, genObj, emb, genStep, wrapAuto, delegate, hstep, settle, dconv, finishWith,
+      exit_caught env cfg decoratorDepth _ g' hc]
+    generalize caughtResult env cfg decoratorDepth (pep479 k e) g' = r
     obtain ⟨er, g2⟩ := r
     cases er <;> simp [escapeRes, settle, pep479_idem]
   | throw x =>
     have hx := hi x rfl
     simp only [wrappedGen, genObj, emb, genStep, wrapAuto, delegate, hx, Bool.false_eq_true, if_false, hstep, settle,
-      dconv, finishWith, hd, exit_caught env cfg true _ g' hc]
-    generalize caughtResult env cfg true (pep479 k e) g' = r
+      dconv, finishWith, exit_caught env cfg decoratorDepth _ g' hc]
+    generalize caughtResult env cfg decoratorDepth (pep479 k e) g' = r
     obtain ⟨er, g2⟩ := r
     cases er <;> simp [escapeRes, settle, pep479_idem]
 
@@ -295,11 +301,10 @@ theorem matching_escape_before_first_yield {σ : Type} (k : Kind) (env : Env) (c
     (hstep : a.step s0 (.send 0) g = (.raise e, s', g'))
     (hc : Caught cfg g' (pep479 k e)) :
     (wrappedGen k (exit env) cfg a).step (wrappedInit s0) (.send 0) g
-      = escapeRes k cfg (pep479 k e) (caughtResult env cfg true (pep479 k e) g') := by
-  have hd : Gen.decoratorFromDecorator = true := rfl
-  simp only [wrappedGen, wrappedInit, genObj, genStep, wrapAuto, if_true, hstep, settle, dconv, finishWith, hd,
-    exit_caught env cfg true _ g' hc]
-  generalize caughtResult env cfg true (pep479 k e) g' = r
+      = escapeRes k cfg (pep479 k e) (caughtResult env cfg decoratorDepth (pep479 k e) g') := by
+  simp only [wrappedGen, wrappedInit, genObj, genStep, wrapAuto, if_true, hstep, settle, dconv, finishWith,
+    exit_caught env cfg decoratorDepth _ g' hc]
+  generalize caughtResult env cfg decoratorDepth (pep479 k e) g' = r
   obtain ⟨er, g2⟩ := r
   cases er <;> simp [escapeRes, settle, pep479_idem]
 
@@ -373,11 +378,10 @@ theorem asyncgen_asend_transparent {σ : Type} (env : Env) (cfg : Cfg) (a : Auto
   unfold agenW agWrapStep
   simp only
   rcases hr : agenStep a st (.asend v) g with ⟨r, st', g'⟩
-  have hd : Gen.decoratorFromDecorator = true := rfl
   cases r with
   | yield y => simp [agAsend, exit_none]
   | stopAsync => simp [agAsend, exit_none]
-  | raise e => simp [agAsend, hd, exit_uncaught env cfg true e g' (h e st' g' hr)]
+  | raise e => simp [agAsend, exit_uncaught env cfg decoratorDepth e g' (h e st' g' hr)]
   | closed => simp [agAsend]
 
 /-- `matching_escape_logged_once` on the `asend` path: one record, one onerror, then iteration ends
@@ -386,14 +390,13 @@ theorem asyncgen_asend_matching_escape_logged_once {σ : Type} (env : Env) (cfg 
     (st st' : AState σ) (v : Val) (g g' : G) (e : Exc)
     (hr : agenStep a st (.asend v) g = (.raise e, st', g')) (hc : Caught cfg g' e) :
     agenW env cfg a st (.asend v) g =
-      match caughtResult env cfg true e g' with
+      match caughtResult env cfg decoratorDepth e g' with
       | (.suppress, g2) => (.stopAsync, st', g2)
       | (.propagate, g2) => (.raise e, st', g2)
       | (.raise x, g2) => (.raise x, st', g2) := by
-  have hd : Gen.decoratorFromDecorator = true := rfl
   unfold agenW agWrapStep
-  simp only [hr, agAsend, hd, exit_caught env cfg true e g' hc]
-  generalize caughtResult env cfg true e g' = r
+  simp only [hr, agAsend, exit_caught env cfg decoratorDepth e g' hc]
+  generalize caughtResult env cfg decoratorDepth e g' = r
   obtain ⟨er, g2⟩ := r
   cases er <;> rfl
 
